@@ -70,22 +70,32 @@ Theorem closed_rejects : forall s, closed s = true ->
 Proof. exact closed_rejects_thm. Qed.
 Print Assumptions closed_rejects.
 
-Theorem closed_drains : forall s c o i, closed s = true ->
+Theorem closed_drains : forall s c i, closed s = true ->
   find i (conss s) = Some c -> ckind c = Iter ->
-  (o = Resume i /\ cph c = Woken \/ o = Next i /\ cph c = Body) ->
-  snd (step s o) = match cbuf c with x :: _ => RYield x | [] => REnded end.
+  (cph c = Woken ->
+     snd (step s (Resume i)) = match cbuf c with x :: _ => RYield x | [] => REnded end) /\
+  (cph c = Body ->
+     snd (step s (Next i)) = match cbuf c with _ :: _ => RPostpone | [] => REnded end) /\
+  (cph c = Postponed ->
+     snd (step s (Resume i)) = match cbuf c with x :: _ => RYield x | [] => RError end).
 Proof. exact closed_drains_thm. Qed.
 Print Assumptions closed_drains.
+
+Theorem postponed_has_message : forall s c,
+  reachable s -> In c (conss s) -> cph c = Postponed -> cbuf c <> [].
+Proof. exact postponed_has_message_thm. Qed.
+Print Assumptions postponed_has_message.
 
 (* ---- the hypotheses are satisfiable: a run with an early iterating consumer (0), a late
    one (1), a single get (2) that is cancelled, a slow consumer, close with pending messages *)
 Definition demo : list op :=
   [Sub 0 Iter; Put 10; Sub 1 Iter; Sub 2 Single; Put 11; Fault 2; Resume 0; Put 12; Close;
-   Next 0; Resume 1; Next 0; Next 1; Next 0; Leave 1; Finalise 1].
+   Next 0; Resume 1; Resume 0; Next 1; Next 0; Resume 1; Resume 0; Next 0; Leave 1; Finalise 1].
 
 Example demo_outs : run_outs init demo =
   [RSleep; RNone; RSleep; RSleep; RNone; RRaised; RYield 10%Z; RNone; RNone;
-   RYield 11%Z; RYield 11%Z; RYield 12%Z; RYield 12%Z; REnded; RNone; RNone].
+   RPostpone; RYield 11%Z; RYield 11%Z; RPostpone; RPostpone; RYield 12%Z; RYield 12%Z; REnded;
+   RNone; RNone].
 Proof. vm_compute. reflexivity. Qed.
 
 Example demo_received :
@@ -99,5 +109,12 @@ Proof. vm_compute. reflexivity. Qed.
 (* erasing consumers 1 and 2 from the run changes nothing for consumer 0 *)
 Example demo_independent :
   view 0 (run init demo) = view 0 (run init (filter (relevant 0) demo)) /\
-  length (filter (relevant 0) demo) = 9.
+  length (filter (relevant 0) demo) = 11.
+Proof. vm_compute. split; reflexivity. Qed.
+
+(* a signal during the postponement before the pop: the victim is gone, nobody else is touched *)
+Example demo_fault_in_postponement :
+  let s := run init [Sub 0 Iter; Sub 1 Iter; Put 1; Put 2; Resume 0; Resume 1; Next 0; Fault 0; Next 1; Resume 1] in
+  map (fun c => (cid c, cph c, crecv c, cout c)) (conss s) =
+  [(0, Done, [1]%Z, OFault); (1, Body, [1; 2]%Z, ONone)] /\ proj s = (false, [[]]).
 Proof. vm_compute. split; reflexivity. Qed.
